@@ -869,13 +869,13 @@ class World:
                 return "saturated_code_-128"
         if fn in ("relu", "lt") and neg_scale:
             return "negative_scale"
-        if fn in ("cat", "stack"):
+        if fn in ("cat", "stack", "lt"):
             sc = [t._scale for t in xs if is_qbytes(t) and t.axis is None]
             if len(sc) == len(xs) and any(z.dtype != sc[0].dtype for z in sc[1:]):
                 # equal values, different dtypes (a scale promoted to float32 by a 0-d float32 scalar): the
                 # quantized join dequantizes every part in the first scale's dtype, the float program in its own
                 return "mixed_scale_dtypes"
-            if len(sc) == len(xs) and any(not torch.equal(sc[0], z) for z in sc[1:]):
+            if fn != "lt" and len(sc) == len(xs) and any(not torch.equal(sc[0], z) for z in sc[1:]):
                 return "unequal_scales"
         if fn == "where" and is_qbytes(g):
             lim = R.qrange(g.qtype)[1] * g._scale.to(torch.float64).abs()
